@@ -71,10 +71,17 @@ func mkRequest(i int) *http.Request {
 	if i%3 == 0 {
 		r.RemoteAddr = fmt.Sprintf("[2001:db8::%d]:%d", i, 4000+i) // IPv6 literal: the host part is between brackets
 	}
+	if i%5 == 4 {
+		// no port at all (an address a "real ip" middleware put there): there is nothing to cut off - the whole value is the host
+		r.RemoteAddr = []string{fmt.Sprintf("2001:db8::%d", i), fmt.Sprintf("10.0.1.%d", i), fmt.Sprintf("fe80::%d%%eth0", i)}[i/5%3]
+	}
 	r.Header.Set("User-Agent", fmt.Sprintf("agent/%d", i))
 	r.Header.Set("Referer", fmt.Sprintf("http://ref/%d", i))
 	r.Header.Set("X-Custom", fmt.Sprintf("custom-%d", i))
 	r.Host = fmt.Sprintf("host%d.example:80%d", i, i)
+	if i%7 == 5 {
+		r.Host = []string{"[::1]", fmt.Sprintf("host%d.example", i), fmt.Sprintf("[2001:db8::%d]:8443", i)}[i/7%3] // default port: none in the header
+	}
 	r.Header.Set("X-Verif-N", fmt.Sprint(i))
 	return r
 }
@@ -91,7 +98,10 @@ func handlerOf(k, key string, r *http.Request) (func(http.Handler) http.Handler,
 	case "remoteaddr":
 		return hlog.RemoteAddrHandler(key), r.RemoteAddr
 	case "remoteip":
-		h, _, _ := net.SplitHostPort(r.RemoteAddr)
+		h, _, err := net.SplitHostPort(r.RemoteAddr)
+		if err != nil {
+			h = r.RemoteAddr // no port to cut off
+		}
 		return hlog.RemoteIPHandler(key), h
 	case "useragent":
 		return hlog.UserAgentHandler(key), r.Header.Get("User-Agent")
